@@ -35,7 +35,7 @@ META = {
     'stubs': ['api.patch -> FakeServer', 'kill = BaseException out of the API request; restart = new memories + listing event'],
     'assumptions': ['after a (re)start the object is re-delivered by the initial listing', 'the echo of every write is eventually delivered in order'],
 }
-STEPS = ['edit', 'restart', 'kill_before', 'kill_after', 'downtime', 'fail_next', 'delete']
+STEPS = ['edit', 'restart', 'kill_before', 'kill_after', 'downtime', 'fail_next', 'delete', 'conflict_next']
 
 
 def run_history(cell, steps, kill_req):
@@ -58,8 +58,11 @@ def run_history(cell, steps, kill_req):
 
     async def main():
         try:
-            await w.deliver()                 # the object is created and seen
+            first = True
             for s in steps:
+                if first and STEPS[s] != 'conflict_next':
+                    await w.deliver()         # the object is created and seen
+                first = False
                 if w.server.obj is None:
                     break
                 name = STEPS[s]
@@ -83,6 +86,16 @@ def run_history(cell, steps, kill_req):
                     fail_next()
                 elif name == 'delete':
                     w.server.write(lambda o: o['metadata'].update(deletionTimestamp='2020-01-01T00:00:00Z'))
+                elif name == 'conflict_next':
+                    # a foreign (non-essential) write slips in right before the operator's next request: a JSON-patch with
+                    # a resourceVersion test gets 422 and the transformation is carried forward to the next cycle
+                    base = len(w.server.requests)
+
+                    def hook(idx, srv, base=base):
+                        if idx == base and srv.obj is not None:
+                            srv.pre_request = None
+                            srv.write(lambda o: o.setdefault('status', {}).update(foreign='w'))
+                    w.server.pre_request = hook
                 if w.server.obj is None:
                     break
                 if w.needs_listing:
@@ -106,7 +119,7 @@ def run_history(cell, steps, kill_req):
 
 def h_converge(s0: int, s1: int, s2: int, s3: int, kill_req: int) -> bool:
     """
-    pre: 0 <= s0 <= 6 and 0 <= s1 <= 6 and 0 <= s2 <= 6 and 0 <= s3 <= 6 and 0 <= kill_req <= 1
+    pre: 0 <= s0 <= 7 and 0 <= s1 <= 7 and 0 <= s2 <= 7 and 0 <= s3 <= 7 and 0 <= kill_req <= 1
     post: _ == True
     """
     vkopf.begin_path()
@@ -152,12 +165,13 @@ def h_converge(s0: int, s1: int, s2: int, s3: int, kill_req: int) -> bool:
 
 def obligations():
     obs = []
-    obs += split(Ob('h_converge', {'storage': 'smart', 'n': 2}, timeout=1800, path_timeout=300,
-                    twins=['converged_live', 'accumulated', 'deleted']), s0=list(range(7)), s1=list(range(7)))
-    obs += split(Ob('h_converge', {'storage': 'status', 'n': 3}, tiers=('thorough',), timeout=3000, path_timeout=300),
-                 s0=list(range(7)), s1=list(range(7)), s2=list(range(7)))
+    S = list(range(len(STEPS)))
+    obs += split(Ob('h_converge', {'storage': 'smart', 'n': 2}, timeout=1200, path_timeout=300,
+                    twins=['converged_live', 'accumulated', 'deleted']), s0=S)
+    obs += split(Ob('h_converge', {'storage': 'smart', 'n': 2, 'delete_handler': True}, timeout=1200, path_timeout=300), s0=[7, 0, 6])
+    obs += split(Ob('h_converge', {'storage': 'status', 'n': 3}, tiers=('thorough',), timeout=3000, path_timeout=300), s0=S, s1=S)
     obs += split(Ob('h_converge', {'storage': 'smart', 'n': 3, 'delete_handler': True}, tiers=('thorough',), timeout=3000, path_timeout=300),
-                 s0=list(range(7)), s1=list(range(7)), s2=list(range(7)))
-    obs += split(Ob('h_converge', {'storage': 'annotations', 'lifecycle': 'one_by_one', 'n': 2}, tiers=('thorough',), timeout=3000, path_timeout=300),
-                 s0=list(range(7)), s1=list(range(7)))
+                 s0=S, s1=S)
+    obs += split(Ob('h_converge', {'storage': 'annotations', 'lifecycle': 'one_by_one', 'n': 3}, tiers=('thorough',), timeout=3000, path_timeout=300),
+                 s0=S, s1=S)
     return obs
